@@ -1102,7 +1102,7 @@ class KmipEngine(object):
             )
             return None
 
-        if group:
+        if group is not None:
             groups_policy_bundle = policy_bundle.get('groups')
             if not groups_policy_bundle:
                 self._logger.debug(
